@@ -7,7 +7,7 @@ from . import c01
 from .c04 import ref_scores
 
 PROP = "C17"
-LEAN_MODULE = "VK.Props.C17"
+LEAN_MODULE = "VK.Check.C17"
 THEOREMS = [
     "VK.C17_rd_step",
     "VK.C17_rd_step'",
@@ -19,6 +19,8 @@ THEOREMS = [
     "VK.prob_seq_cons",
     "VK.C17_rd_sequence",
     "VK.C17_rd_two_seats",
+    "VK.kernel_boosted_takes_squares",
+    "VK.kernel_boosted_single",
 ]
 RULE = ("cases = RandomDictator / BoostedRandomDictator on random profiles (1-6 candidates, ties in first place, partial "
         "ballots, rational weights; 15% with unequal weights of mean exactly one) x m x seeds: every call of random.choices / random.uniform / numpy.random.choice / "
